@@ -89,8 +89,13 @@ def replay_items(prop, mod):
     return items
 
 
+SCRATCH = os.path.realpath(env.REPO) != "/repo"          # aimed at a scratch copy: keep outputs out of the committed dirs
+OUT_EVIDENCE = os.path.join(VERIF, ".work", "scratch-evidence") if SCRATCH else os.path.join(VERIF, "evidence")
+OUT_REPLAYS = os.path.join(VERIF, ".work", "scratch-replays") if SCRATCH else os.path.join(VERIF, "replays")
+
+
 def write_replay(prop, sub, backend, fail):
-    d = os.path.join(VERIF, "replays")
+    d = OUT_REPLAYS
     os.makedirs(d, exist_ok=True)
     body = {"property": prop, "sub": sub, "backend": backend, "case": fail["case"], "msg": fail["msg"],
             "detail": fail.get("detail")}
@@ -269,8 +274,8 @@ def do_run(prop, mod, tier, seed, workdir, t0):
         "wall_s": round(time.time() - t0, 2),
         "violations": len(vlines),
     }
-    os.makedirs(os.path.join(VERIF, "evidence"), exist_ok=True)
-    with open(os.path.join(VERIF, "evidence", f"{prop}.json"), "w") as f:
+    os.makedirs(OUT_EVIDENCE, exist_ok=True)
+    with open(os.path.join(OUT_EVIDENCE, f"{prop}.json"), "w") as f:
         json.dump(ev, f, indent=1, sort_keys=True, default=str)
     print(f"{prop} {tier} seed={seed}: evaluations={evals} distinct_nontrivial={distinct_nt} "
           f"violations={len(vlines)} wall={ev['wall_s']}s")
